@@ -557,11 +557,37 @@ class NodeSpace:
 
         class Series(Connection):
             KIND = K_SERIES
+            REAL = [("circuit/series", "Series"), ("circuit/base", "Connection")]
 
         class Parallel(Connection):
             KIND = K_PARALLEL
+            REAL = [("circuit/parallel", "Parallel"), ("circuit/base", "Connection")]
+
+        def lazy(self_obj, name):
+            """a method the stand-in does not have but the real class does (a helper the code under contract was refactored to
+            call): the real method is compiled with the same rewrites and the same namespace, and bound"""
+            if name.startswith("__") or sp.ns is None:
+                raise AttributeError(name)
+            for module, cls in getattr(type(self_obj), "REAL", []):
+                try:
+                    fn = core.find_def(module, f"{cls}.{name}")
+                except LookupError:
+                    continue
+                if not isinstance(fn, ast.FunctionDef):
+                    continue
+                decos = {ast.unparse(d) for d in fn.decorator_list}
+                f = build_function(fn, sp.ns, sp.vc, label=f"{cls}.{name}")
+                if "staticmethod" in decos:
+                    return f
+                if "classmethod" in decos:
+                    return lambda *a, **k: f(type(self_obj), *a, **k)
+                return lambda *a, **k: f(self_obj, *a, **k)
+            raise AttributeError(name)
+        Connection.__getattr__ = lazy
 
         class Element(NodeBase):
+            REAL = [("circuit/base", "Element")]
+
             def get_symbol(self):
                 return ctx().placeholder(f"symbol({self.t})", ("symbol", self))
 
@@ -569,6 +595,9 @@ class NodeSpace:
                 lab = z3.Bool(f"has_label({self.t})")
                 return ctx().placeholder(f"label({self.t})", ("label", self)) if ctx().decide(lab, "element has a label") else ""
 
+        Element.__getattr__ = lazy
+        self.ns: Optional[Dict[str, Any]] = None       # set by the contract: namespace and VC used to compile lazily loaded real helper methods
+        self.vc: Optional["VC"] = None
         self.Connection, self.Series, self.Parallel, self.Element = Connection, Series, Parallel, Element
         # the class of an element is decided only when the code asks for it (type(x), isinstance(x, Resistor))
         self.element_classes: Dict[str, type] = {}
@@ -962,6 +991,7 @@ class VC:
 
     def __init__(self, specs: LoopSpecs, space: NodeSpace):
         self.specs, self.space = specs, space
+        space.vc = self
         self.Continue = _Continue
         self.Break = _Break
 
@@ -1546,4 +1576,5 @@ def base_namespace(space: NodeSpace) -> Dict[str, Any]:
     ns = {"range": s_range, "len": s_len, "list": s_list, "iter": s_iter, "enumerate": s_enumerate, "reversed": s_reversed, "map": s_map, "filter": s_filter,
           "sum": s_sum, "set": s_set, "max": sym_max, "min": sym_min}
     ns.update(space.namespace())
+    space.ns = ns
     return ns
